@@ -156,10 +156,11 @@ def Db.hasAll (db : Db) (t : Bytes) (sigs : List SData) : Bool :=
 inductive AErr | noScheme | exists | notSha256 | sizeMismatch
 deriving DecidableEq, Repr
 
-/-- list-level `AppendBytes` -/
+/-- list-level `AppendBytes` (F27 repair: PEM is decoded before the duplicate check, so that the DER
+    form is what is compared and stored) -/
 def SList.appendBytes (E : Env) (l : SList) (o d : Bytes) : Except AErr SList :=
-  if l.has o d then .error .exists else
   let d' := E.norm l.type d
+  if l.has o d' then .error .exists else
   if l.type = guidSha256 ∧ d'.length ≠ 32 then .error .notSha256 else
   if l.sigs ≠ [] ∧ d'.length + 16 ≠ l.size then .error .sizeMismatch else
   .ok { l with sigs := l.sigs ++ [⟨o, d'⟩], size := d'.length + 16, listSize := l.listSize + (d'.length + 16) }
